@@ -117,7 +117,7 @@ func (k *Keeper) deployERC20ForBankCoin(
 	// Emit the logs from the EVM Contract deploy execution
 	err = ctx.EventManager().EmitTypedEvent(&evm.EventTxLog{Logs: evmResp.Logs})
 	if err == nil {
-		k.updateBlockBloom(ctx, evmResp, uint64(0))
+		k.updateBlockBloom(ctx, evmResp, uint64(txConfig.LogIndex))
 	}
 
 	return erc20Addr, nil
